@@ -63,3 +63,21 @@ Inductive uev := URegister (x : nat) | UFinish (x : nat) (ok : bool).
 Definition ustep (honour : bool) (s : usess) (e : uev) : usess :=
   match e with URegister x => fst (register honour s x) | UFinish x ok => finish s x ok end.
 Definition urun (honour : bool) (s : usess) (es : list uev) : usess := fold_left (ustep honour) es s.
+
+(* The session as its caller sees it: the results of its registration calls (a failed registration is an error returned by
+   add_data / finish / finalize, whichever cut the xorb), then finalize -- the join, and when the join lets it start, the
+   upload of the session's shards, each of which the environment lets succeed or fail.  [regs_ok]: every registration
+   returned Ok.  session_result: None -- finalize is still waiting for a task; Some b -- the session reported success b. *)
+Fixpoint regs_ok (honour : bool) (s : usess) (es : list uev) : bool :=
+  match es with
+  | [] => true
+  | URegister x :: r => snd (register honour s x) && regs_ok honour (fst (register honour s x)) r
+  | UFinish x ok :: r => regs_ok honour (finish s x ok) r
+  end.
+Definition session_result (honour : bool) (es : list uev) (shards : list bool) : option bool :=
+  match finalize_join honour (urun honour u_init es) with
+  | None => None
+  | Some j => Some (regs_ok honour u_init es && j && forallb (fun b => b) shards)
+  end.
+(* the xorbs registered by a history, oldest first *)
+Definition regs (es : list uev) : list nat := flat_map (fun e => match e with URegister x => [x] | UFinish _ _ => [] end) es.
